@@ -189,24 +189,39 @@ theorem pinv_reachable (p : Policy) (as : List Action) : PInv (runAll (init p) a
 theorem loopinv_reachable (p : Policy) (as : List Action) : LoopInv (runAll (init p) as).1 :=
   loopinv_runAll _ as (good_init p) (pinv_init p) (loopinv_init p)
 
-/-- **`join()` terminates** - the positive half of `join_terminates_full`: in a history without
-a competing `next_done()` caller (the F12 situation), once every member has finished a joiner
-that was not abandoned (F11: cancelled again while awaiting the members it had cancelled) has
-left `join()`, and `joined` is set.  Derived from the no-stuck-state theorem
-`joiner_waits_only_for_unfinished`, which rests on `fuel_adequate`. -/
-theorem join_terminates_partial (p : Policy) (as : List Action)
-    (hnc : ∀ a ∈ as, a.isNextDone = false) (j : Joiner)
+/-- **`join()` terminates** - the positive half of `join_terminates_full`: in a history in which
+no other task ever had to wait in `next_done()` (`NoParking` - the F12 situation, a caller parked
+on the group's semaphore, is what is excluded; callers served at once are fine), once every
+member has finished a joiner that was not abandoned (F11: cancelled again while awaiting the
+members it had cancelled) has left `join()`, and `joined` is set.  Derived from the
+no-stuck-state theorem `joiner_waits_only_for_unfinished_of_noParking`, which rests on
+`fuel_adequate`. -/
+theorem join_terminates_of_noParking (p : Policy) (as : List Action)
+    (hnp : NoParking (init p) as) (j : Joiner)
     (hj : (runAll (init p) as).1.joiner = some j) (hab : j.abandoned = false)
     (hall : ∀ m ∈ (runAll (init p) as).1.mem, m.status = .done) :
     j.phase = .exited ∧ (runAll (init p) as).1.joined = true := by
   have hex : j.phase = .exited := by
     by_cases hne : j.phase = .exited
     · exact hne
-    · rcases joiner_waits_only_for_unfinished p as hnc j hj hne with
+    · rcases joiner_waits_only_for_unfinished_of_noParking p as hnp j hj hne with
         ⟨_, _, m, hm, _, _, hs⟩ | ⟨_, snap, _, m, hm, _, hs⟩
       · exact absurd (hall m hm) hs
       · exact absurd (hall m hm) hs
   exact ⟨hex, (reach_runAll _ as (reach_init p)).exitClean j hj hex hab⟩
+
+/-- ... in particular in histories containing no `Action.nextDone` at all -/
+theorem join_terminates_partial (p : Policy) (as : List Action)
+    (hnc : ∀ a ∈ as, a.isNextDone = false) (j : Joiner)
+    (hj : (runAll (init p) as).1.joiner = some j) (hab : j.abandoned = false)
+    (hall : ∀ m ∈ (runAll (init p) as).1.mem, m.status = .done) :
+    j.phase = .exited ∧ (runAll (init p) as).1.joined = true :=
+  join_terminates_of_noParking p as (noParking_of_noNextDone _ as hnc) j hj hab hall
+
+/-- the F12 witness violates exactly the side condition: its consumer has to wait -/
+example : ¬ NoParking (init .all) [.spawn 0 false [], .nextDone 0 [], .join [], .finish 0 .val []] := by
+  simp only [NoParking, Action.isNextDone]
+  decide
 
 /-- non-vacuity: a history meeting every hypothesis (no consumer, joiner cancelled once - not
 abandoned -, three members and a daemon all finished) -/
@@ -276,7 +291,7 @@ theorem join_returns_at_stop_log (p : Policy) (as : List Action)
       have hsem := hn.sem
       simp only [hpNat, hj, hperm, hs0] at hsem
       have hdq : g.doneq = [] := List.eq_nil_of_length_eq_zero (by simpa using hsem.symm)
-      have hlog : g.log = g.joinPopped := by rw [← hl.queue, hdq, hn.popped]; simp
+      have hlog : g.log = g.joinPopped := by rw [← hl.queue, hdq, hn.popped rfl]; simp
       rcases hs with h | ⟨t, ht, hst⟩
       · exact hw h
       · rw [hlog] at ht
@@ -318,24 +333,45 @@ theorem wait_reachable (p : Policy) (as : List Action) : (runAll (init p) as).1.
 environment, the joiner is in the `next_done` loop and some member is pending, then after the
 reaction it is *still in the loop* - unless the stop condition of the policy has been met: while
 the stop condition has not been met and members are pending, `join()` keeps waiting. -/
-theorem join_stays_in_loop (p : Policy) (as : List Action) (a : Action)
-    (hnc : ∀ b ∈ as, b.isNextDone = false) (hna : a.isNextDone = false) (j1 : Joiner)
+theorem join_stays_in_loop_of_noParking (p : Policy) (as : List Action) (a : Action)
+    (hnp : NoParking (init p) (as ++ [a])) (j1 : Joiner)
     (hj1 : ((runAll (init p) as).1.apply a).1.joiner = some j1) (hp1 : j1.phase = .next)
     (hpend : ((runAll (init p) as).1.apply a).1.pending ≠ [])
     (hstop : (react (runAll (init p) as).1 a).1.stopMet = false) :
     ∃ j', (react (runAll (init p) as).1 a).1.joiner = some j' ∧ j'.phase = .next := by
+  rw [noParking_append] at hnp
   have hg := good_reachable p as
-  have hn := ninv_reachable p as hnc
+  have hn := ninv_reachable_noParking p as hnp.1
   have hji := jinv_reachable p as
   have hpi := pinv_reachable p as
+  have hpark := hnp.2
   generalize (runAll (init p) as).1 = g at *
   have hg1 := good_apply g a hg
   rw [react_fst] at hstop ⊢
   simp only [G.stopMet, Bool.or_eq_false_iff, beq_eq_false_iff_ne] at hstop
   have hw : (g.apply a).1.wait ≠ .nowait := by
     rw [← wait_runJoiner a.perm (g.apply a).1.fuel _ hg1.fixed]; exact hstop.1
+  have hna : a.isNextDone = false ∨ ((false : Bool) = false ∧ g.consumerWouldPark = false) := by
+    cases hn' : a.isNextDone with
+    | false => exact Or.inl rfl
+    | true => exact Or.inr ⟨rfl, hpark hn'⟩
   exact stay_in_loop a.perm _ _ hg1.fixed hg1.tinv hg1.linv ((pstep_apply g a).pinv hpi)
     (ninv_apply g a hna hn) (jinv_apply g a hji hg.tinv) j1 hj1 hp1 hw hpend hstop.2
+
+/-- ... in particular in histories without any `next_done()` caller -/
+theorem join_stays_in_loop (p : Policy) (as : List Action) (a : Action)
+    (hnc : ∀ b ∈ as, b.isNextDone = false) (hna : a.isNextDone = false) (j1 : Joiner)
+    (hj1 : ((runAll (init p) as).1.apply a).1.joiner = some j1) (hp1 : j1.phase = .next)
+    (hpend : ((runAll (init p) as).1.apply a).1.pending ≠ [])
+    (hstop : (react (runAll (init p) as).1 a).1.stopMet = false) :
+    ∃ j', (react (runAll (init p) as).1 a).1.joiner = some j' ∧ j'.phase = .next :=
+  join_stays_in_loop_of_noParking p as a
+    (noParking_of_noNextDone _ _ (by
+      intro b hb
+      simp only [List.mem_append, List.mem_singleton] at hb
+      rcases hb with hb | rfl
+      · exact hnc b hb
+      · exact hna)) j1 hj1 hp1 hpend hstop
 
 /-- non-vacuity (`all`): three members; 0 finishes fine: the joiner pops it and is back in the
 loop waiting for 1 and 2 -/
